@@ -374,7 +374,7 @@ func cmdCheck(args []string) int {
 		dir := writeReplay(*prop, name, why, o, solveOpts{timeoutS: to, seed: seed, outDir: outDir})
 		suffix := " no-failing-input-found"
 		if o != nil {
-			if ok := tryReplay(*prop, dir, o); ok {
+			if ok := tryReplay(*prop, dir, o, solveOpts{timeoutS: to, seed: seed, outDir: outDir}); ok {
 				suffix = ""
 			}
 		}
